@@ -12,7 +12,7 @@ LEVEL = "exploration"
 ENGINE = "E-prov"
 TECHNIQUE = ("deterministic simulation with dependency-fault injection: the AES plug-in is registered / missing / raises at "
              "call k (k placed inside the write by a dry run); stored payload located by an independent directory walker "
-             "and compared with an independent AES-CBC; restart, read back, rewrite; secrecy scan with high-entropy needles")
+             "and compared with an independent AES-CBC; restart, read back, rewrite; secrecy scan with high-entropy needles; second-key rewrites; concurrent writers under one key under the deterministic thread scheduler")
 DESIGN_REF = "DESIGN.md section 6, C06"
 LEVEL_TEXT = ("seeded search over (content length mod 16, trailing zeros, key class, framing, cipher fault point); per file "
               "every cipher call index of the write is a candidate fault point and a seeded one is injected; sampling")
